@@ -481,3 +481,7 @@ impl Display for Literal {
         }
     }
 }
+
+#[cfg(kani)]
+#[path = "/verif/kani/model.rs"]
+mod verif_kani;
